@@ -271,6 +271,55 @@ Proof.
   destruct ic; cbn; rewrite andb_false_r; unfold client_close_conn; rewrite !orb_true_r; reflexivity.
 Qed.
 
+(* the response parser's flag is set whenever the response said close or is HTTP/1.0 without keep-alive *)
+Theorem resp_flag_complete http11 ic vals : all_clean vals = true ->
+  wants_close http11 vals = true -> resp_conn_flag (negb http11) ic vals = true.
+Proof. exact (req_flag_complete http11 ic vals). Qed.
+
+(* PipelineClient: no request is written on a connection after a response that said close was read on it *)
+Lemma pipeline_ids_ge id flags x : In x (pipeline_conn_ids id flags) -> (id <= x)%Z.
+Proof.
+  revert id. induction flags as [|f r IH]; intros id; cbn; [tauto|].
+  intros [<-|H]; [lia|]. apply IH in H. destruct f; lia.
+Qed.
+
+Theorem pipeline_never_reuses flags id i j :
+  (i < j)%nat -> (j < length flags)%nat -> nth i flags false = true ->
+  nth i (pipeline_conn_ids id flags) 0%Z <> nth j (pipeline_conn_ids id flags) 0%Z.
+Proof.
+  revert id i j. induction flags as [|f r IH]; intros id i j Hij Hj Hf; [cbn in Hj; lia|].
+  destruct j as [|j]; [lia|]. cbn in Hj. destruct i as [|i].
+  - cbn in Hf. subst f. cbn.
+    assert (Hin : In (nth j (pipeline_conn_ids (id + 1) r) 0%Z) (pipeline_conn_ids (id + 1) r)).
+    { apply nth_In. clear -Hj. revert Hj. generalize (id + 1)%Z. revert j.
+      induction r as [|g r IHr]; intros j z Hj; cbn in *; [lia|]. destruct j; [lia|]. apply Lt.lt_n_S, IHr. lia. }
+    apply pipeline_ids_ge in Hin. lia.
+  - cbn. apply IH; [lia|lia|exact Hf].
+Qed.
+
+(* both transports: whenever a response said close (or is HTTP/1.0 without keep-alive), HostClient closes the
+   connection instead of pooling it, and PipelineClient writes every later request on another connection *)
+Theorem clients_never_reuse (resps : list (bool * list bytes)) i j :
+  forallb (fun r => all_clean (snd r)) resps = true ->
+  (i < j)%nat -> (j < length resps)%nat ->
+  wants_close (fst (nth i resps (true, []))) (snd (nth i resps (true, []))) = true ->
+  let flags := map (fun r => resp_conn_flag (negb (fst r)) false (snd r)) resps in
+  (forall reset reqclose, client_close_conn reset reqclose (nth i flags false) = true) /\
+  nth i (pipeline_conn_ids 1 flags) 0%Z <> nth j (pipeline_conn_ids 1 flags) 0%Z.
+Proof.
+  intros Hc Hij Hj Hw flags.
+  assert (Hf : nth i flags false = true).
+  { unfold flags. assert (Hi : (i < length resps)%nat) by lia.
+    rewrite (nth_indep _ false (resp_conn_flag (negb (fst (true, @nil bytes))) false (snd (true, @nil bytes))))
+      by (rewrite map_length; exact Hi).
+    rewrite (map_nth (fun r => resp_conn_flag (negb (fst r)) false (snd r))).
+    apply resp_flag_complete; [|exact Hw].
+    rewrite forallb_forall in Hc. apply (Hc (nth i resps (true, []))). apply nth_In. exact Hi. }
+  split.
+  - intros reset reqclose. rewrite Hf. unfold client_close_conn. rewrite !orb_true_r. reflexivity.
+  - apply pipeline_never_reuses; [exact Hij|unfold flags; rewrite map_length; exact Hj|exact Hf].
+Qed.
+
 (* regression witness: a close option behind an HTAB (optional whitespace in RFC 9110) is recognised —
    before the repair of stripSpace it was not *)
 Definition htab_value : bytes := s2b "keep-alive," ++ [9] ++ s2b "close".
